@@ -1,6 +1,6 @@
 use std::default::Default;
 use std::env::current_dir;
-use std::fs::{read_link, symlink_metadata, DirEntry, FileType, ReadDir};
+use std::fs::{read_link, symlink_metadata, DirEntry, FileType};
 use std::sync::Arc;
 use std::{fs, io};
 
@@ -372,6 +372,13 @@ impl<'a> Walk<'a> {
 
         match fs::read_dir(path.to_path_buf()) {
             Ok(rd) => {
+                // report entries that could not be read instead of dropping them silently
+                let dir = path.clone();
+                let rd = rd.inspect(|e| {
+                    if let Err(e) = e {
+                        self.log_warn(format!("Failed to read dir {}: {}", dir.display(), e))
+                    }
+                });
                 for entry in Self::sorted_entries(path, rd) {
                     let gitignore = gitignore.clone();
                     scope.spawn(move |s| {
@@ -398,7 +405,10 @@ impl<'a> Walk<'a> {
     /// Sorts dir entries so that regular files are at the end.
     /// Because each worker's queue is a LIFO, the files would be picked up first and the
     /// dirs would be on the other side, amenable for stealing by other workers.
-    fn sorted_entries(parent: Path, rd: ReadDir) -> impl Iterator<Item = Entry> {
+    fn sorted_entries(
+        parent: Path,
+        rd: impl Iterator<Item = io::Result<DirEntry>>,
+    ) -> impl Iterator<Item = Entry> {
         let mut files = vec![];
         let mut links = vec![];
         let mut dirs = vec![];
